@@ -23,7 +23,7 @@ ASSUMPTIONS = ["byte-wise partition computed with open(...,'rb').read() is the o
                "H-hash checks behaviour under digest collisions, not SHA-512 itself",
                "member files = regular non-symlink files with a source extension under the root not matched by the "
                "(literal directory / extension) exclude patterns used by this generator"]
-REQUIRED_HOOKS = ["H-hash", "find_duplicates"]
+REQUIRED_HOOKS = ["find_duplicates"]
 
 POOL = [b"", b"int a;\n", b"int a;", b"int b;\n", b"int a;\n\n", b"x" * 70000 + b"\n", b"x" * 35000 + b"y" + b"x" * 34999 + b"\n",
         b"int a;\r\n", b"\n", b"int A;\n"]
@@ -31,12 +31,12 @@ EXTS = [".c", ".h", ".cpp", ".hpp", ".f90", ".cu", ".inc"]
 
 
 def bounds(tier):
-    return {"cases": 300 if tier == "quick" else 12000, "cli_cases": 6 if tier == "quick" else 60}
+    return {"cases": 1500 if tier == "quick" else 30000, "cli_cases": 6 if tier == "quick" else 60}
 
 
 def required_cells(tier):
     return ["class-size>=3", "classes>=2", "weak-digest-collision-different-content", "near-duplicate", "excluded-twin",
-            "symlinked-twin", "hard-link", "empty-files", "no-duplicates", "non-source-twin", "cli"]
+            "symlinked-twin", "hard-link", "empty-files", "no-duplicates", "non-source-twin", "cli", "same-size-same-mtime-different-content", "link-enumerated-before-target"]
 
 
 def gen_case(rng):
@@ -92,6 +92,10 @@ def build(root, case):
         os.makedirs(os.path.dirname(p), exist_ok=True)
         with open(p, "wb") as f:
             f.write(POOL[cid])
+    # identical time stamps: os.stat signatures of same-size files are equal, as after cp -p / tar / checkout
+    for dp, dn, fn in os.walk(root):
+        for name in fn:
+            os.utime(os.path.join(dp, name), (1_600_000_000, 1_600_000_000))
     for rel, t in case["links"].items():
         p = os.path.join(root, rel)
         os.makedirs(os.path.dirname(p), exist_ok=True)
@@ -100,6 +104,8 @@ def build(root, case):
         p = os.path.join(root, rel)
         os.makedirs(os.path.dirname(p), exist_ok=True)
         os.link(os.path.join(root, t), p)
+    # a link placed in the root is enumerated before its target in a sub-directory
+    
 
 
 def oracle(root, case):
@@ -144,6 +150,13 @@ def cells_of(case, classes, by, root):
         cells.add("hard-link")
     if case["nonsrc"]:
         cells.add("non-source-twin")
+    sizes = {}
+    for content in by:
+        sizes.setdefault(len(content), []).append(content)
+    if any(len(v) >= 2 for v in sizes.values()):
+        cells.add("same-size-same-mtime-different-content")
+    if any("/" not in l and "/" in t for l, t in case["links"].items()):
+        cells.add("link-enumerated-before-target")
     return cells
 
 
@@ -175,6 +188,10 @@ def observe(root, case, weak):
 def check_case(ctx, case, root, cls, do_cli=False):
     acc = ctx.acc
     build(root, case)
+    # the scratch tree is rebuilt at the same path with identical time stamps: filecmp's module-level cache
+    # (keyed by path + stat signature) would otherwise answer from an earlier case
+    import filecmp
+    filecmp.clear_cache()
     real_root = os.path.realpath(root)
     classes, by = oracle(real_root, case)
     cells = cells_of(case, classes, by, real_root)
@@ -215,6 +232,12 @@ def check_case(ctx, case, root, cls, do_cli=False):
                  sample={"files": {k: "pool[%d] (%d bytes)" % (v, len(POOL[v])) for k, v in case["files"].items()},
                          "links": case["links"], "hard": case["hard"], "excludes": case["excludes"],
                          "classes": sorted(sorted(os.path.relpath(p, real_root) for p in c) for c in classes)})
+
+
+def post_check(m, tier):
+    # the weak-digest injection is only meaningful while the code hashes files at all; report if it never fired
+    return [] if m["hooks"].get("H-hash", 0) else ["H-hash (forced digest collisions) never fired: find_duplicates no longer calls hashlib.file_digest"] \
+        if m["verdicts"].get("violated", 0) == 0 else []
 
 
 def run_shard(ctx):
